@@ -347,8 +347,22 @@ def check_C14(ctx):
     inline_jobs(ctx, ["Inv_C14"], [{"op": "clean"}])
 
 
+def ref_model_checking(ctx):
+    """sanity theorems about the reference semantics itself (partition, nesting, extents, regions, clock)"""
+    from engine import DEFAULT_CFG
+    from vlib import base_consts
+    q = ctx.quick
+    for (nm, g, now) in [("block", lines_gen(6 if q else 7, 2, 3, ["R", "P", "T", "F"], ws=(2,)), [11000, 0]),
+                         ("unwrap", lines_gen(8 if q else 9, 2, 2, ["Ru", "Pu", "R", "Tu"], blank=False), [10900, 0])]:
+        consts = dict(base_consts(dict(DEFAULT_CFG, now=now), [], "mc"))
+        consts.update(g["consts"])
+        ctx.mc("ref-" + nm, "MC_Ref", consts, ["TokensSane", "PairsSane", "ExtentsSane", "RegionsSane", "ClockSane"],
+               constraint="Feasible")
+
+
 def check_C15(ctx):
     ops = [{"op": "clean"}, {"op": "list_json"}, {"op": "list"}, {"op": "list_json"}]
+    ref_model_checking(ctx)
     block_jobs(ctx, ["Inv_C15"], ops, lite=True)
     unwrap_jobs(ctx, ["Inv_C15"], ops, lite=True)
     inline_jobs(ctx, ["Inv_C15"], ops, lite=True)
